@@ -51,6 +51,18 @@ def run(ctx):
             tol = 1e-12 if (affine and method == 'complex') else ((1e-5 if method == 'forward' else 1e-7) if not h else 1e-3)
             if not np.allclose(J, exact, rtol=tol, atol=tol * (1 + np.max(np.abs(exact)))):
                 ctx.violation('jacobian-value:%s' % method, 'nd_scipy.Jacobian(method=%r): entries differ from the analytic Jacobian by %.3g' % (method, float(np.max(np.abs(J - exact)))), desc)
+        # f returning its components as a list / tuple (same numbers): same shape (m, n), same values
+        if np.shape(J) == (m, n) and k % 2 == 0:
+            for vname, wrap in (('list', list), ('tuple', tuple)):
+                try:
+                    Jv = nds.Jacobian(lambda t, *a_, wrap=wrap, **k_: wrap(f(t, *a_, **k_)), method=method, **kw)(x, 2.0, shift=0.5)
+                except Exception as ex:   # noqa
+                    ctx.violation('raises:%s' % method, 'nd_scipy.Jacobian raises %r when f returns a %s' % (ex, vname), desc)
+                    continue
+                ctx.count(1, ('jac-container', vname, m == 1))
+                if np.shape(Jv) != (m, n) or not np.allclose(Jv, J, rtol=1e-12, atol=1e-12 * (1 + np.max(np.abs(exact)))):
+                    ctx.violation('jacobian-shape:f-returns-%s:m=%d' % (vname, 1 if m == 1 else 2), 'nd_scipy.Jacobian of f: R^%d -> R^%d returning a %s gives shape %r, not (%d, %d) (or other numbers)' % (
+                        n, m, vname, np.shape(Jv), m, n), dict(desc, f_returns=vname))
         if boxed:
             lo, hi = kw['bounds']
             for p in seen:
